@@ -25,11 +25,15 @@ examples; proofs in Lemmas/C11Accept*.lean and Lemmas/C11Restarts.lean).
 any number of restarts, any overlap, with and without `usecheckpoints`, any request
 list incl. duplicates / unsorted / absent iterations, explicit restart)
   `pick_latest`, `pick_none`, `pick_max`, `pick_agrees_with_pickRestart`
-  `rows_aligned`, `rows_aligned_explicit`   every column (`t` and each variable) has exactly
-                         one entry per returned iteration, taken from the chosen restart at that
-                         iteration — PROVIDED every restart's reader returns the same columns;
-  `rows_misaligned_when_columns_differ`      if a variable is missing in a middle restart the
-                         code returns a shorter, shifted column (concrete witness; replayed).
+  `rows_aligned`, `rows_aligned_explicit`   (code as of /repo e8cb585) the columns are the union of
+                         the columns of the restarts read; every column (`t` and each variable) has
+                         exactly one entry per returned iteration: the chosen restart's value at that
+                         iteration, or `None` when that restart lacks the column — NO hypothesis on the
+                         columns the restarts deliver;
+  `rows_aligned_when_columns_differ`        the former misalignment witness, now aligned (replayed
+                         as a correspondence case);
+  `checkpoint_only_restart_shadows_3d`      known finding: a restart that holds only checkpoints
+                         gets its range from them and shadows the 3D data of an earlier restart.
 -/
 import AurelVerif.Lemmas.C11AcceptConv
 import AurelVerif.Lemmas.C11Restarts
@@ -186,23 +190,30 @@ theorem pick_agrees_with_pickRestart (avail : List Avail) (iit : Nat) :
   rw [← List.map_reverse, List.find?_map, Option.map_map]
   rfl
 
-/-- **rows aligned, `restart = -1`.**  Whatever the restarts, their overlap and the
-request: one row per requested iteration held by some restart, increasing, no
-duplicates; the `t` column and every variable column have exactly one entry per
-row, the one that the chosen restart's reader delivers for that iteration.
-(`keys`: the columns — the same for every restart; `cell r k it`: what the reader
-of restart `r` returns in column `k` for iteration `it`.) -/
+/-- **rows aligned, `restart = -1`, full strength.**  Whatever the restarts, their
+overlap, the request and the columns each restart delivers: one row per requested
+iteration held by some restart, increasing, no duplicates; the columns are the
+union (first-seen order) of the columns of the restarts that are read; every
+column — `t` and every variable — has exactly one entry per row: what the chosen
+restart's reader delivers for that iteration, or `None` if that restart does not
+have the column.  (`keysOf r`: the columns of restart `r`; `cell r k it`: what its
+reader returns in column `k` for iteration `it`.) -/
 theorem rows_aligned {β : Type} (usechk : Bool) (cats : List Cat) (hnd : (cats.map (·.num)).Nodup)
-    (keys : List String) (hk : keys.Nodup) (cell : Nat → String → Nat → β)
+    (keysOf : Nat → List String) (cell : Nat → String → Nat → β)
     (reader : Nat → List Nat → Option (Table β))
     (hr : ∀ r l, l ≠ [] → l.Pairwise (· < ·) → (∀ it ∈ l, pick usechk cats it = some r) →
-      reader r l = some (ideal keys cell r l))
+      reader r l = some (ideal (keysOf r) cell r l))
     (its : List Nat) :
     readETData usechk cats none its reader
-      = if rowsOf usechk cats its = [] then none
-        else some ((rowsOf usechk cats its).map Prod.fst,
-                   aligned keys fun k => (rowsOf usechk cats its).map fun p => cell p.2 k p.1) :=
-  readETData_auto usechk cats hnd keys hk cell reader hr its
+      = some ((rowsOf usechk cats its).map Prod.fst,
+              aligned (unionKeysOf keysOf (activeRestarts usechk cats its)) fun k =>
+                (rowsOf usechk cats its).map fun p => cellOpt keysOf cell p.2 k p.1) :=
+  readETData_auto usechk cats hnd keysOf cell reader hr its
+
+/-- the restarts whose columns enter the union are exactly those a row comes from -/
+theorem active_restarts (usechk : Bool) (cats : List Cat) (its : List Nat) (r : Nat) :
+    r ∈ activeRestarts usechk cats its ↔ ∃ it, (it, r) ∈ rowsOf usechk cats its :=
+  mem_activeRestarts usechk cats its r
 
 /-- **rows aligned, explicit restart**: only that restart is consulted -/
 theorem rows_aligned_explicit {β : Type} (usechk : Bool) (cats : List Cat) (hnd : (cats.map (·.num)).Nodup)
@@ -212,21 +223,37 @@ theorem rows_aligned_explicit {β : Type} (usechk : Bool) (cats : List Cat) (hnd
       reader c.num l = some (ideal keys cell c.num l))
     (its : List Nat) :
     readETData usechk cats (some c.num) its reader
-      = if (sortedSet its).filter (fun it => inRestart usechk c it) = [] then none
+      = if (sortedSet its).filter (fun it => inRestart usechk c it) = [] then some ([], [])
         else some ((sortedSet its).filter (fun it => inRestart usechk c it),
-                   aligned keys fun k => ((sortedSet its).filter fun it => inRestart usechk c it).map (cell c.num k)) :=
+                   aligned keys fun k =>
+                     ((sortedSet its).filter fun it => inRestart usechk c it).map fun it => some (cell c.num k it)) :=
   readETData_explicit usechk cats hnd c hc keys hk cell reader hr its
 
-/-- Without "every restart returns the same columns" the rows are NOT aligned:
-restart 1 lacks column `rho0`; iterations 0, 6, 10 come from restarts 0, 1, 2;
-the `rho0` column comes back with two entries, the second one (iteration 10)
-next to iteration 6. -/
-theorem rows_misaligned_when_columns_differ :
+/-- the former misalignment witness (restart 1 lacks `rho0`; iterations 0, 6, 10 from
+restarts 0, 1, 2): `rho0` now has three entries, `None` next to iteration 6; and with
+the variable missing in the FIRST restart (formerly KeyError) -/
+theorem rows_aligned_when_columns_differ :
     flattenTables [(0, ⟨[0], [("t", [100]), ("alpha", [1]), ("rho0", [5])]⟩),
                    (1, ⟨[6], [("t", [106]), ("alpha", [2])]⟩),
                    (2, ⟨[10], [("t", [110]), ("alpha", [3]), ("rho0", [7])]⟩)] [0, 6, 10]
-      = some ([0, 6, 10], [("t", [100, 106, 110]), ("alpha", [1, 2, 3]), ("rho0", [5, 7])]) := by
-  decide +kernel
+      = some ([0, 6, 10], [("t", [some 100, some 106, some 110]), ("alpha", [some 1, some 2, some 3]),
+                           ("rho0", [some 5, none, some 7])])
+    ∧ flattenTables [(0, ⟨[0], [("t", [100]), ("alpha", [1])]⟩),
+                     (1, ⟨[6], [("t", [106]), ("alpha", [2]), ("rho0", [6])]⟩),
+                     (2, ⟨[10], [("t", [110]), ("alpha", [3]), ("rho0", [7])]⟩)] [0, 6, 10]
+      = some ([0, 6, 10], [("t", [some 100, some 106, some 110]), ("alpha", [some 1, some 2, some 3]),
+                           ("rho0", [none, some 6, some 7])]) := by
+  constructor <;> decide +kernel
+
+/-- **known finding (not repaired)**: restart 1 holds only checkpoint files (4 and 8), so
+its 'its available' is `[4, 8]`; a plain request for iterations 2 and 6 sends iteration 6
+to restart 1 — whose reader fails, there is no 3D output — although restart 0 stores it. -/
+theorem checkpoint_only_restart_shadows_3d :
+    pick false [⟨0, some (0, 6), some []⟩, ⟨1, some (4, 8), some [4, 8]⟩] 6 = some 1
+    ∧ inRestart false ⟨0, some (0, 6), some []⟩ 6 = true
+    ∧ readETData (β := Nat) false [⟨0, some (0, 6), some []⟩, ⟨1, some (4, 8), some [4, 8]⟩] none [2, 6]
+        (fun r l => if r = 1 then none else some (ideal ["t"] (fun _ _ it => it) r l)) = none := by
+  refine ⟨by decide +kernel, by decide +kernel, by decide +kernel⟩
 
 /-! ## Non-vacuity -/
 
@@ -260,7 +287,8 @@ example : (([⟨0, some (0, 40), some [0, 32]⟩, ⟨1, some (32, 64), some [32,
     List Cat).map (fun c => c.num)).Pairwise (· < ·) := by decide
 example : readETData (β := Nat) true [⟨0, some (0, 40), some [0, 32]⟩, ⟨1, some (32, 64), some [32, 48]⟩,
       ⟨2, some (48, 80), some [64]⟩] none [48, 32, 7, 0, 32]
-      (fun r l => some (ideal ["t", "v"] (fun r k it => if k = "t" then 1000 * r + it else 7000 + 100 * r + it) r l))
-    = some ([0, 32, 48], [("t", [0, 1032, 1048]), ("v", [7000, 7132, 7148])]) := by decide +kernel
+      (fun r l => some (ideal (if r = 0 then ["t", "v"] else ["t"])
+        (fun r k it => if k = "t" then 1000 * r + it else 7000 + 100 * r + it) r l))
+    = some ([0, 32, 48], [("t", [some 0, some 1032, some 1048]), ("v", [some 7000, none, none])]) := by decide +kernel
 
 end AurelVerif.C11
